@@ -226,8 +226,17 @@ def amplify_case(r):
     g.ops.append("srvnew %d %d %d %s 0" % (r.choice([4096, 2]), r.choice([32, 1]), r.randrange(2), scfg))
     for k in range(4):
         g.ops.append("peer %d" % k)
+    # variant: one address completes the first half of a handshake (full-size SYN) and then floods the server with
+    # handshake ACKs carrying wrong nonces (9 bytes each); whatever the server answers to those adds up
+    storm = r.randrange(4) if r.random() < 0.3 else None
+    if storm is not None:
+        g.nonce()
+        g.ops.append("psend %d syn 3 %d 2000000 100 1000000" % (storm, r.randrange(U32)))
     for t in range(r.choice([5, 12, 25])):
         now = g.tick((0, 10, 500, 2000, 2100))
+        if storm is not None:
+            for _ in range(r.choice([10, 20, 30])):
+                g.ops.append("psend %d hsack %d" % (storm, r.randrange(U32)))
         for _ in range(r.choice([1, 1, 2, 3])):
             k = r.randrange(4)
             a = r.random()
@@ -281,10 +290,14 @@ def timers_case(r):
     srv_disc = r.random() < 0.4
     lose_ack = 0
     disc_from = None
+    answered = False
     if srv_disc:
         lose_first, lose_back, blackout_from = 0, 0, None
         lose_ack = r.choice([0, 1, 2, 3, 5])
         disc_from = lose_ack + r.choice([1, 1, 2, 3])
+        # sub-variant: the peer does answer (the connection ends with Disconnect on both sides) and the server is
+        # stepped for another 30 s: nothing more may be reported about that address
+        answered = r.random() < 0.4
     n_iter = r.choice([20, 40, 80])
     t = 0
     end_ms = None
@@ -296,7 +309,7 @@ def timers_case(r):
         if r.random() < 0.2:
             g.ops.append("clisend 0 %d %d %d %d" % (r.randrange(4), r.randrange(4), min(cinfo["mps"], r.choice([10, 100, 2000])), g.k)); g.k += 1
         g.ops.append("clistep 0 %d" % now)
-        dark = (blackout_from is not None and t >= blackout_from) or (disc_from is not None and t >= disc_from)
+        dark = (blackout_from is not None and t >= blackout_from) or (disc_from is not None and t >= disc_from and not answered)
         d = 1000 if (fwd < lose_first or dark or (1 <= t <= lose_ack)) else 0
         g.ops.append("pfwd 0 %d 0 1" % d)
         fwd += 1
